@@ -202,7 +202,7 @@ Section BlockInv.
       + intro j. unfold upd. destruct (Nat.eqb_spec j i) as [->|Hne]; [cbn [fst snd]; split; assumption|apply A].
       + intro j. unfold upd. destruct (Nat.eqb_spec j i) as [->|Hne]; [intros _ _; exact Eb|apply E]. Qed.
 
-  Lemma inv_muts right : forall q s, Inv s -> Inv (bs_muts es unphased nind mpos mnode right q s).
+  Lemma inv_muts right : forall q s, Inv s -> Inv (bs_muts unphased nind mpos mnode right q s).
   Proof. induction q as [|m q IH]; intros s H; cbn [bs_muts].
     - destruct H as [A E C N B D1 D2 D3 F]. constructor; assumption.
     - destruct (mpos m <? right).
@@ -219,7 +219,7 @@ Section BlockInv.
     bs_sweep es unphased nind mpos mnode L M insq remq = Some s -> Inv s.
   Proof. unfold bs_sweep. intro H.
     apply (loop_preserves bs_state _ _ L (bs_rmv es unphased nind) (bs_ins es unphased nind)
-             (bs_after es unphased nind mpos mnode) (fun s => negb (bs_err s =? 0)) (@cond_std) Inv) with (5 := H).
+             (bs_after unphased nind mpos mnode) (fun s => negb (bs_err s =? 0)) (@cond_std) Inv) with (5 := H).
     - intros x e s0. apply inv_rmv.
     - intros x e s0. apply inv_ins.
     - intros l r s0 H0. unfold bs_after. apply inv_muts. exact H0.
